@@ -88,6 +88,8 @@ pub struct Ctx {
     pub shim: PathBuf,
     pub tier: Tier,
     pub serial: u64,
+    /// CPU-seconds limit of child processes (protects the sandbox; exceeding it is inconclusive)
+    pub cpu_limit: u64,
 }
 
 pub trait Prop: Sync {
@@ -185,6 +187,7 @@ pub fn make_ctx(worker: usize, tier: Tier) -> Ctx {
         shim: root.join("build/libsimio.so"),
         tier,
         serial: 0,
+        cpu_limit: 30,
     }
 }
 
